@@ -400,8 +400,12 @@ def timedelta(s):
             seconds = val
         else:
             raise TypeError(f'bad part {part} in {s}')
-    return datetime.timedelta(weeks=weeks, days=days, hours=hours,
-                              minutes=minutes, seconds=seconds)
+    try:
+        return datetime.timedelta(weeks=weeks, days=days, hours=hours,
+                                  minutes=minutes, seconds=seconds)
+    except OverflowError as e:
+        # infinite or out-of-range numbers ("infw", "9e99w")
+        raise ValueError(f"time interval out of range in {s!r}: {e}")
 
 
 stock_datatypes = {
